@@ -3,6 +3,8 @@ package config
 import (
 	"encoding/json"
 	"fmt"
+	"math"
+	"sort"
 	"strconv"
 	"strings"
 	"time"
@@ -64,6 +66,25 @@ func (im *StringMap) Decode(input []byte) error {
 func (im *StringMap) Encode() []byte {
 	buff, _ := json.Marshal(im)
 	return buff
+}
+
+// SortedKeys returns the keys of a settings request in a fixed order, so that every node applies the
+// entries (and reports the first error) in the same order.
+func SortedKeys(m map[string]string) []string {
+	keys := make([]string, 0, len(m))
+	for k := range m {
+		keys = append(keys, k)
+	}
+	sort.Strings(keys)
+	return keys
+}
+
+// ParseZCN is currency.ParseZCN that refuses NaN and the infinities instead of panicking.
+func ParseZCN(v float64) (currency.Coin, error) {
+	if math.IsNaN(v) || math.IsInf(v, 0) {
+		return 0, fmt.Errorf("%v is not a token amount", v)
+	}
+	return currency.ParseZCN(v)
 }
 
 func InterfaceMapToStringMap(in map[string]interface{}) map[string]string {
